@@ -14,10 +14,16 @@ What IS decided are necessary conditions, each of which a realistic defect break
                 the documented minimum haystack length of the vector searchers
   POST-VERIFIED Some(i) is returned only after needle[..] was compared equal with haystack[i..i+len] OF THE
                 CALLER'S haystack (EQ ghost; a sub-search result must be rebased): Rabin-Karp, every packed-pair
-                `find`, Two-Way large period, and the meta searcher on top of them.  Not decidable for
-                small-period Two-Way (it skips what its shift memory vouches for), see
+                `find`, Two-Way large period, and the meta searcher on top of them.
+                For small-period Two-Way: everything the shift memory does NOT vouch for (needle[shift..], resp.
+                needle[..shift] in reverse) was compared equal -- the memory itself is the subject of
   MEMO          small-period Two-Way: after an iteration shift == 0, or the last move of `pos` was exactly
                 +period and shift + period <= needle.len()
+  SUFFIX-STEP   maximal/minimal suffix scan (Suffix::forward / reverse): per iteration the comparison offset advances
+                by one with the candidate unchanged, or the candidate start moves and the comparison restarts at 0
+  PERIOD-TEST   Shift::Small is chosen only when the ONE comparison Two-Way prescribes -- is_suffix(v[..period], u)
+                forward, is_prefix(last `period` bytes of v, u) reverse -- answered true, and no other affix
+                comparison decides the classification (a wrong `false` gives a periodic needle the large shift)
   POST-NONE / POST-FIRST   the packed-pair vector searcher `find` (needles of 2..=32 bytes on haystacks of at least
                 min_haystack_len) is COMPLETE: None only after every position where the needle fits was rejected
                 (pair absent, or the confirming comparison failed), Some(i) only when every position before i was --
@@ -32,7 +38,7 @@ PID = 'C03'
 ROOTS = (r"^memmem::find$|^memmem::Finder::<.*>::(find|new(::<.*>)?)$|^memmem::FinderBuilder::(build_forward(::<.*>)?|build_forward_with_ranker(::<.*>)?)$"
          r"|^arch::all::twoway::Finder::(new|find)$|^arch::all::rabinkarp::Finder::(new|find)$"
          r"|^arch::(x86_64::sse2|x86_64::avx2|aarch64::neon|wasm32::simd128)::packedpair::Finder::(find|new|with_pair)$")
-KINDS = ('REL-POST', 'REL-PRE', 'POST-VERIFIED', 'MEMO', 'SPEC-POST', 'UNION', 'FNPTR', 'TYINV', 'DOC-PANIC', 'POST', 'POST-NONE', 'POST-FIRST', 'AXIOM-PRE')
+KINDS = ('REL-POST', 'REL-PRE', 'POST-VERIFIED', 'MEMO', 'SUFFIX-STEP', 'PERIOD-TEST', 'SPEC-POST', 'UNION', 'FNPTR', 'TYINV', 'DOC-PANIC', 'POST', 'POST-NONE', 'POST-FIRST', 'AXIOM-PRE')
 FLOORS = {'REL-POST': 60, 'REL-PRE': 10, 'POST-VERIFIED': 5, 'MEMO': 1, 'UNION': 5}
 WHAT = 'forward'
 
